@@ -147,7 +147,8 @@ def oracle_stack(script, res):
     ebs = 0
     for tok, g in zip(res["concrete"], res["groups"][1:]):
         k, t, f = _parse_in(tok)
-        dels = [x.split(":", 1)[1] for x in g if x.startswith("D")]
+        # `stop` (the runner withdrawing from the pipe) is not something the application sees
+        dels = [x.split(":", 1)[1] for x in g if x.startswith("D") and not x.endswith(":stop")]
         sends = [x for x in g if x.startswith("s@")]
         kinds = [d.split(":")[0] for d in dels]
         ebs += kinds.count("eb")
